@@ -16,7 +16,8 @@ float part, which the harness bounds on every run (printed digits, one to two un
 * `C20_top_sums_to_one`      – the top-level nodes sum to 1 on every reported date (no weight on the hidden root);
 * `C20_returns_every_period` – `returns` prints exactly one line per period end of the partition inside the window;
 * `C20_zero_of_day_equation`, `C20_zero_when_only_external_flows_partial`, `C20_ratio_without_flows` – the two clauses
-  about the reported numbers.
+  about the reported numbers, in their chain-level / whole-run forms; per SINGLE PERIOD of an arbitrary journal they are
+  in `Properties/C20Periods.lean`; the tie of `V1` to `knut balance -v` is in `Properties/C20Balance.lean`.
 -/
 namespace Knut.C20
 open Knut Knut.Performance Knut.Weights Knut.PortfolioSpec
@@ -31,8 +32,8 @@ theorem C20_weights_share (mapping : List MapRule) (u u' : Universe) (date : Int
 /-- **values are sums of posting values of portfolio accounts**: what `ComputeValues` holds for commodity `c` after a day is
 what it held before plus the values of the day's postings in `c` on portfolio accounts (asset/liability accounts passing
 the account filter, commodity passing the commodity filter). `V1` of the day is this map. That the same sums are what
-`knut balance -v` reports for the asset/liability accounts is NOT mechanised (it is checked against the real
-`knut balance -v V --csv -s .` on every case). -/
+`knut balance -v` reports for the asset/liability accounts is `C20_values_are_valued_balance`
+(Properties/C20Balance.lean); it is also checked against the real `knut balance -v V --csv -s .` on every case. -/
 theorem C20_values_are_posting_sums (cfg : Cfg) (c : Commodity) (txs : List Transaction) (vals : AMap Commodity Rat) :
     (valuesDay cfg vals txs).get c 0 = vals.get c 0 + sumOver (inVc cfg c) (txs.flatMap (·.postings)) :=
   valuesDay_get cfg c txs vals
@@ -124,7 +125,9 @@ theorem C20_zero_of_day_equation (span : Period) (ends : List Int) (perfs : List
   perfLines_all_one span ends perfs (fun p hp hc =>
     factor_one_of_net_flow p (h p hp hc).1 (h p hp hc).2.1 (h p hp hc).2.2)
 
-/-- **0 % when prices are unchanged and only external flows occur** — PARTIAL.
+/-- **0 % when prices are unchanged and only external flows occur** — PARTIAL (global form; the clause itself, for ONE
+period of an arbitrary journal and the general notion of resting prices, is
+`C20_zero_period_when_only_external_flows` in Properties/C20Periods.lean).
 
 Full clause: the reported return is 0 % for a period in which prices are unchanged and only external deposits or
 withdrawals occur.
@@ -155,8 +158,8 @@ theorem C20_zero_when_only_external_flows_partial (cfg : Cfg) (hf : ∀ c, cfg.c
 `last` the period end day, none of the others a period end) carry no flows and have non-zero start values, the line
 printed for the period is `V1(last) / V0(first day) − 1`, where `V0(first day)` is the value at the end of the day before
 (`Linked`). `r = 1` is the state of `Perf` right after the previous period end was reported.
-With `--last n` the first reported period is preceded by window days that are not reset, so `Perf` reaches it with
-`r ≠ 1`: known finding `returns-last-folds-earlier-periods`. -/
+(List-level form; for a period of the command's partition see `C20_ratio_period_without_flows`, Properties/C20Periods.lean.
+Before the repair `32cd4f9`, with `--last n` `Perf` reached the first reported period with `r ≠ 1`.) -/
 theorem C20_ratio_without_flows (span : Period) (ends : List Int) (days : List DayPerf) (last : DayPerf)
     (rest : List DayPerf) (prev : AMap Commodity Rat)
     (hdays : ∀ p ∈ days, span.contains p.date = true ∧ ends.contains p.date = false)
